@@ -459,6 +459,10 @@ pub fn replay_flow(case: &Value, rep: &mut Report) {
         match mode {
             "fb" => {
                 rep.checks += 1;
+                // the network-level accumulations (for skip and loop connections) are set to something ELSE than the block's
+                // own accumulation: a block keeps the accumulation it was created with
+                let other = if case["cfg"]["acc"] == "mean" { "add" } else { "mean" };
+                net.set_accumulation(nets::accumulation(other), nets::accumulation(other));
                 match guarded(|| net.predict(&x)) {
                     Err(e) => rep.mismatch(prop, "predict_panicked", &id, json!({"panic": e, "cfg": case["cfg"]}), case),
                     Ok(y) => {
